@@ -1,1 +1,102 @@
-From SV Require Import C01.SatSpec.
+(* Property C02: SAT verdicts are correct and the solver always comes back.
+   Proved (for every trace accepted by the full guarded machine, chk = true): INFEASIBLE only if the
+   formula with the assumptions has no model; never a model for an unsatisfiable formula; learned
+   clauses are entailed; the enumeration-complete verdict misses no model; the fixed luby() is the
+   Luby sequence, total with an explicit iteration bound, and the pinned luby() hangs on 2.
+   Explored only (harness): completeness of the search and termination of the real interpreter.
+   Only statements + `exact <lemma>`; proofs in C01/*.v. *)
+From Coq Require Import List ZArith Bool.
+Import ListNotations.
+From SV Require Import C01.SatSpec C01.Rup C01.Machine C01.Luby.
+From SV Require C01.RupProofs C01.SatLemmas C01.MachineInv C01.MachineThms C01.LubyProofs.
+Open Scope Z_scope.
+
+(* reverse unit propagation is a sound entailment test *)
+Theorem rup_sound : forall F c, rup F c = true -> entails F c.
+Proof. exact RupProofs.rup_sound. Qed.
+Print Assumptions rup_sound.
+
+(* every accepted clause of conflict analysis is entailed by the input, the assumption units, the
+   pure-literal units and the blocking clauses accepted so far *)
+Theorem learned_entailed : forall N A limit evs s, run true N A limit evs = Some s ->
+  forall c, In (c, false) (db s) ->
+  entails (units A ++ units (pures s) ++ N ++ blockings (db s)) c.
+Proof. exact MachineThms.learned_entailed_thm. Qed.
+Print Assumptions learned_entailed.
+
+(* same, "so far" made explicit: db is newest first and each clause only needs the blocking clauses after it in the list *)
+Theorem learned_entailed_sofar : forall N A limit evs s, run true N A limit evs = Some s ->
+  MachineInv.db_entailed (base N A (pures s)) (db s).
+Proof. exact MachineThms.learned_entailed_sofar_thm. Qed.
+Print Assumptions learned_entailed_sofar.
+
+(* forcing literals that are pure in N, on variables that are not assumed, keeps N /\ A satisfiable *)
+Theorem pure_ok : forall N A P m, pure_okb N A P = true -> models m N -> agrees m A ->
+  models (SatLemmas.force P m) N /\ agrees (SatLemmas.force P m) A /\ agrees (SatLemmas.force P m) P.
+Proof. exact SatLemmas.pure_ok. Qed.
+Print Assumptions pure_ok.
+
+Theorem C02_unsat_sound : forall N A limit evs s, run true N A limit evs = Some s ->
+  verdict s = Some RInfeasible -> unsat_under N A.
+Proof. exact MachineThms.unsat_sound_thm. Qed.
+Print Assumptions C02_unsat_sound.
+
+(* in terms of the returned Result: status INFEASIBLE => no model under the assumptions (and no model returned) *)
+Theorem C02_unsat_result : forall N A limit evs s r, run true N A limit evs = Some s ->
+  result_of limit s = Some r -> r_status r = INFEASIBLE -> unsat_under N A /\ r_solution r = None.
+Proof. exact MachineThms.unsat_result_thm. Qed.
+Print Assumptions C02_unsat_result.
+
+Theorem C02_no_false_model : forall chk N A limit evs s, run chk N A limit evs = Some s ->
+  unsat_under N A ->
+  sols s = [] /\ forall r, result_of limit s = Some r -> r_solution r = None /\ r_solutions r = None.
+Proof. exact MachineThms.no_false_model_thm. Qed.
+Print Assumptions C02_no_false_model.
+
+(* enumeration ended by a level-0 conflict / a blocking clause without open literal: no model is missing *)
+Theorem C02_enum_complete_sound : forall N A limit evs s, run true N A limit evs = Some s ->
+  verdict s = Some RExhausted -> pures s = [] ->
+  forall a, models a N -> agrees a A ->
+  exists m, In m (sols s) /\ forall l, In l m -> lit_true a l = true.
+Proof. exact MachineThms.enum_complete_thm. Qed.
+Print Assumptions C02_enum_complete_sound.
+
+(* the fixed luby(i) returns within 2*i loop iterations, its value is the Luby sequence (a functional
+   relation) and is >= 1, so restart thresholds luby_factor * luby(i) are positive multiples *)
+Theorem luby_spec : forall i, 1 <= i ->
+  exists v, luby (luby_fuel i) i = Some v /\ Luby i v /\ 1 <= v /\ forall v', Luby i v' -> v' = v.
+Proof. exact LubyProofs.luby_spec. Qed.
+Print Assumptions luby_spec.
+
+(* the pinned luby (without the upper bound in the block test) never returns on 2: the first restart hangs *)
+Theorem luby_pinned_refuted : forall fuel, luby_pinned fuel 2 = None.
+Proof. exact LubyProofs.luby_pinned_refuted. Qed.
+Print Assumptions luby_pinned_refuted.
+
+(* ---- non-vacuity: real traces of /repo ---- *)
+Definition ex_unsat : cnf :=
+  [[1; 2; 3]; [-1; -2]; [1; -2; -3]; [-1; 2; -3]; [-1; -2; 3]; [1; 2; -3]; [1; -2; 3]; [-1; 2; 3]].
+
+Example C02_nonvacuous_unsat :
+  exists s, run true ex_unsat [] 1 [EInit 3 [] [] []; ELearn [-1] false; ELearn [2; 1] false; EVerdict INFEASIBLE] = Some s
+    /\ verdict s = Some RInfeasible /\ length (db s) = 2%nat.
+Proof. vm_compute. eexists. repeat split. Qed.
+
+(* a clause that is not RUP is rejected; INFEASIBLE without a refutation is rejected *)
+Example C02_nonvacuous_rejects :
+  run true [[1; 2]; [-1; 2; 3]] [] 1 [EInit 3 [] [] []; ELearn [-2] false] = None
+  /\ run true [[1; 2]] [-1] 1 [EInit 2 [] [] [-1]; EVerdict INFEASIBLE] = None
+  /\ run true [[1; 2]] [-1] 1 [EInit 2 [1; 2] [] [-1]; EVerdict INFEASIBLE] = None.
+Proof. vm_compute. repeat split. Qed.
+
+Example C02_nonvacuous_enum :
+  exists s, run true [[1; 2]; [-1; -2]] [] 10
+              [EInit 2 [] [] []; ESolution [1; -2]; ELearn [-1; 2] true; ELearn [-1] false;
+               ESolution [-1; 2]; ELearn [1; -2] true; EVerdict OPTIMAL] = Some s
+    /\ verdict s = Some RExhausted /\ pures s = [] /\ length (sols s) = 2%nat.
+Proof. vm_compute. eexists. repeat split. Qed.
+
+Example C02_luby_prefix_example :
+  map (fun i => luby (luby_fuel i) i) [1; 2; 3; 4; 5; 6; 7; 8; 9; 10; 11; 12; 13; 14; 15]
+  = map Some [1; 1; 2; 1; 1; 2; 4; 1; 1; 2; 1; 1; 2; 4; 8].
+Proof. vm_compute. reflexivity. Qed.
